@@ -376,6 +376,33 @@ theorem findAux_first (needle pre : Bytes) (hpre : pre <+: needle) (hlen : needl
       simp only [this]
       rw [ih y (off + 1) h]; simp; omega
 
+theorem findAux_none_not_prefix (needle : Bytes) (hn : needle ≠ []) :
+    ∀ (b : Bytes) (off : Nat), findAux needle b off = none → needle.isPrefixOf b = false
+  | [], _, _ => by cases needle with
+    | nil => exact absurd rfl hn
+    | cons a n => simp [List.isPrefixOf]
+  | x :: xs, off, h => by
+    unfold findAux at h
+    split at h
+    · simp at h
+    · rename_i hnp; exact Bool.eq_false_iff.mpr hnp
+
+/-- a longer needle is not found where its tail is not found -/
+theorem findAux_cons_none (needle : Bytes) (hn : needle ≠ []) (c : Nat) :
+    ∀ (b : Bytes) (off : Nat), findAux needle b off = none → findAux (c :: needle) b off = none
+  | [], off, _ => by simp [findAux]
+  | x :: xs, off, h => by
+    have hx : findAux needle xs (off + 1) = none := by
+      unfold findAux at h
+      split at h
+      · simp at h
+      · exact h
+    have hp : needle.isPrefixOf xs = false := findAux_none_not_prefix needle hn xs (off + 1) hx
+    unfold findAux
+    have : (c :: needle).isPrefixOf (x :: xs) = false := by simp [List.isPrefixOf, hp]
+    simp only [this, Bool.false_eq_true, if_false]
+    exact findAux_cons_none needle hn c xs (off + 1) hx
+
 /-- **classification of a well-formed frame**: `Message.get_msg_type` returns the value of the frame's own MsgType field
     (the bytes between the `35=` that follows BodyLength and the next SOH) -/
 theorem fix_msgType {f ver ds ty rest : Bytes} (h : wfFixFrame f = true)
@@ -387,11 +414,21 @@ theorem fix_msgType {f ver ds ty rest : Bytes} (h : wfFixFrame f = true)
   have hfirst : find (fixHeader ver ds ++ [51, 53]) tag35 0 = none :=
     find_header_none ver ds (fun h61 => h.1.1.1.1.1 61 h61 rfl) h.1.1.1.2
   have hl := fixHeader_length ver ds
-  have h35 : find f tag35 0 = some (fixHeader ver ds).length := by
+  -- the header without its final SOH
+  have hx : fixHeader ver ds = ([56, 61] ++ ver ++ [1, 57, 61] ++ ds) ++ [1] := by simp [fixHeader]
+  generalize hxd : [56, 61] ++ ver ++ [1, 57, 61] ++ ds = x at hx
+  have hxl : x.length + 1 = (fixHeader ver ds).length := by rw [hx]; simp
+  have hnp : tag35.isPrefixOf f = false := by
+    rw [hf]; simp [fixHeader, tag35, List.isPrefixOf]
+  have h35 : find f (SOH :: tag35) 0 = some x.length := by
     rw [find_zero] at hfirst ⊢
-    have := findAux_first tag35 [51, 53] ⟨[61], rfl⟩ (by simp [tag35]) (fixHeader ver ds) (ty ++ 1 :: rest) 0 hfirst
-    rw [hf]
-    simpa using this
+    have hS : findAux (SOH :: tag35) (x ++ [1, 51, 53]) 0 = none := by
+      have := findAux_cons_none tag35 (by simp [tag35]) SOH _ 0 hfirst
+      rw [hx] at this
+      simpa using this
+    have := findAux_first (SOH :: tag35) [1, 51, 53] ⟨[61], rfl⟩ (by simp [tag35]) x (ty ++ 1 :: rest) 0 hS
+    rw [hf, hx]
+    simpa [SOH, tag35] using this
   have hsoh : find f [SOH] ((fixHeader ver ds).length + 2) = some ((fixHeader ver ds).length + 3 + ty.length) := by
     have e : f = (fixHeader ver ds ++ tag35 ++ ty) ++ 1 :: rest := by rw [hf]; simp
     have hdrop : (fixHeader ver ds ++ tag35 ++ ty).drop ((fixHeader ver ds).length + 2) = 61 :: ty := by
@@ -401,7 +438,10 @@ theorem fix_msgType {f ver ds ty rest : Bytes} (h : wfFixFrame f = true)
       (by simp [tag35]) (by rw [hdrop]; simp [hty])
     rw [e, SOH, this]; simp [tag35]; omega
   unfold getMsgType
-  simp only [h35, hsoh]
+  simp only [hnp, Bool.false_eq_true, if_false, h35]
+  have hst : x.length + 3 = (fixHeader ver ds).length + 2 := by omega
+  rw [hst]
+  simp only [hsoh]
   have hlen : f.length = (fixHeader ver ds).length + 3 + ty.length + 1 + rest.length := by
     rw [hf]; simp [tag35]; omega
   have e1 : (((fixHeader ver ds).length + 2 : Nat) : Int) + 1 = (((fixHeader ver ds).length + 3 : Nat) : Int) := by omega
